@@ -184,6 +184,8 @@ C13Params ==
     \cup { <<"fort", <<ft>>, it, 0, "-">> : ft \in DOMAIN ForTargets, it \in DOMAIN ForIters }
     \cup { <<"lpa", its, "ints:n", n, pos>> :          \* [items.., ..a] : the rest is collected into `a`
              its \in UNION {ItemSeqs(m, {"a", "b", "_", "sub"}) : m \in 0 .. 2}, n \in 0 .. MaxSrc, pos \in Positions }
+    \cup { <<"badrest", <<>>, pos, n, "-">> : pos \in {"decl", "assign", "for", "param"}, n \in 0 .. 2 }
+    \cup { <<"spreadkind", <<>>, sk, 0, where>> : sk \in {"null", "int", "str", "obj"}, where \in {"list", "call", "first"} }
     \cup { <<"law", <<"collect">>, "-", n, ToString(m)>> : n \in 0 .. MaxSrc + 1, m \in 0 .. 3 }
     \cup { <<"law", <<"objrest">>, sx, 0, "-">> : sx \in {"a", "ab", "abc"} }
     \cup { <<"law", <<"concat">>, "-", n, ToString(m)>> : n \in 0 .. 3, m \in 0 .. 3 }
@@ -202,6 +204,17 @@ C13ProgOf(p) ==
             BindAt(p[5], ListPat(p[2], SplitCollect(p[3])), SrcList(SplitKind(p[3]), p[4]),
                    NamesOfL(p[2], SplitCollect(p[3])))
       [] p[1] = "op" -> <<SDecl(EVar(KV), EStr(KB))>> \o BindAt(p[5], ObjPat(p[2]), SrcObj(p[3]), NamesOfO(p[2]))
+      \* `[a, ..b..]`: the collecting item may not be a spread as well
+      [] p[1] = "badrest" ->
+            LET pat == [t |-> "list", loc |-> NL, collect |-> TRUE,
+                        items |-> [i \in 1 .. p[4] |-> Item(V(i))] \o <<Spread(Rest)>>] IN
+            <<SPrint(I(0))>> \o BindAt(p[3], pat, SrcList("ints", 3), <<>>)
+      \* only lists can be spread in lists and calls
+      [] p[1] = "spreadkind" ->
+            <<SFn(FN, <<Rest>>, TRUE, <<SReturn(Rest)>>), SDecl(Src, SrcList(p[3], 0)), SPrint(I(0)),
+              SPrint(CASE p[5] = "list" -> EListOf(<<Item(I(1)), Spread(Src)>>)
+                       [] p[5] = "first" -> EListOf(<<Spread(Src), Item(I(1))>>)
+                       [] p[5] = "call" -> ECallOf(EVar(FN), <<Item(I(1)), Spread(Src)>>))>>
       [] p[1] = "fort" -> <<SFor(ForTargets[p[2][1]], ForIters[p[3]], PrintAll(ForTargetNames(p[2][1]))), SPrint(I(0))>>
       [] p[1] = "lpa" -> BindAt(p[5], ListPatInto(p[2], V(1)), SrcList("ints", p[4]),
                                 Concat([i \in 1 .. Len(p[2]) |-> LNames(p[2][i])]) \o <<V(1)>>)
@@ -248,5 +261,6 @@ SpreadCallEquiv ==
              LET i1 == Min(z) i2 == Max(z) IN
              SubSeq(out, i1 + 1, i2 - 1) = SubSeq(out, i2 + 1, Len(out))
         ELSE Cardinality(z) = 1 /\ status.diag.kind \in {"ArgNumMismatch", "TooFewArgs"}
-C13Laws == LawsHold /\ SpreadCallEquiv
+BadRestIsError == (Finished /\ pi[1] \in {"badrest", "spreadkind"}) => status.k = "failed"
+C13Laws == LawsHold /\ SpreadCallEquiv /\ BadRestIsError
 =============================================================================
